@@ -470,6 +470,8 @@ func c12NestedValues(rng *splitmix) []interface{} {
 		&zoo.ManyL{Items: []interface{}{&zoo.K00{A: 1}, &zoo.K01{A: "x"}, &zoo.K02{A: 2}, &zoo.K00{A: 3}, []interface{}{int32(1), "s"}, map[interface{}]interface{}{"k": int64(5)}}},
 		&zoo.NMapHolder{T: "t", M: zoo.NMap{"a": {A: 1, B: "b"}}},
 		zoo.ManyClasses(20),
+		// nested 300 deep: whatever two instances count or stack while descending must not add up
+		deepChain(300, 299, reflect.TypeOf(zoo.K00{})),
 	}
 }
 
